@@ -99,23 +99,20 @@ static inline _Bool spec_not(_Bool a) { return !a; }
 #define MIX_IF 1          /* int op float (admitted by the type checker with a diagnostic for comparisons / equality) */
 #define MIX_FI 2          /* float op int */
 
-/* ---- array_slice (C03.slice.*): transcription of what the COMPILED program does, i.e. of nl_array_slice emitted by
- *      src/stdlib_runtime.c (generated C is built with -fwrapv, so `start + length` wraps):
- *          start < 0 -> 0;  length < 0 -> 0;  start > len -> len;  end = start + length (wrapping);  end > len -> len;
- *          result = elements [start, end)   (empty when end <= start)
- *      On the non-wrapping domain this is "start clamped to [0,len], count = length clamped to what remains". ---- */
+/* ---- array_slice (C03.slice.*): docs/STDLIB.md `array_slice(arr, start, length)`: start and length clamped at 0, start
+ *      clamped at len, count = length clamped to what remains (SATURATING: a huge length means "the rest").  The same
+ *      formula is the spec of the VM handler (C02.vm.ARR_SLICE) and is what nl_array_slice emitted by
+ *      src/stdlib_runtime.c computes since fix 5597440 (before it, start + length wrapped: empty slice / interpreter crash). ---- */
 static inline int64_t spec_slice_start(int64_t start, int64_t len)
 { int64_t s = start < 0 ? 0 : start; return s > len ? len : s; }
 static inline int64_t spec_slice_count(int64_t start, int64_t length, int64_t len)
 {
     int64_t s = spec_slice_start(start, len);
     int64_t l = length < 0 ? 0 : length;
-    int64_t e = (int64_t)((uint64_t)s + (uint64_t)l);
-    if (e > len) e = len;
-    return e > s ? e - s : 0;
+    return l < len - s ? l : len - s;
 }
 #define SL_NOWRAP 1       /* clamped start + clamped length does not exceed INT64_MAX */
-#define SL_WRAP 2         /* it does (the compiled program then yields an EMPTY slice) */
+#define SL_WRAP 2         /* it does (start + length would overflow: the result is the rest of the array) */
 
 /* C08: index outside the half-open range from 0 to length */
 #define EV_OUT_OF_RANGE(idx, len) ((idx) < 0 || (idx) >= (int64_t)(len))
